@@ -27,7 +27,11 @@ def case(draw, tier):
         el = {'cls': 'ElementComposite', 'of': [base, other] if draw(st.booleans()) else [other, base]}
     else:
         el = base
-    return dict(mesh=desc, elem=el, seed=draw(st.integers(0, 10**6)), npts=draw(st.integers(1, 3)))
+    # meshes as users obtain them: also after library operations (refinement keeps/creates the local orders the library
+    # itself chooses) and after operations whose result is discarded (they must leave the mesh alone)
+    post = draw(st.sampled_from(['none', 'none', 'none', 'adaptive', 'uniform', 'discarded_ops']))
+    return dict(mesh=desc, elem=el, seed=draw(st.integers(0, 10**6)), npts=draw(st.integers(1, 3)), post=post,
+                marks=draw(st.lists(st.integers(0, 10**4), min_size=1, max_size=4)))
 
 
 def leaves(desc):
@@ -127,6 +131,23 @@ def body(c, ctx):
     if desc.get('sort_t') is False and multi_facet_dofs(eld):
         raise Reject()       # outside the claim, as the property and the source say
     m = build_mesh(desc)
+    post = c.get('post', 'none')
+    first_order = desc['cls'].endswith('1')
+    if post == 'adaptive' and kind in ('tri', 'tet', 'line') and first_order and m.nelements <= 12:
+        m = m.refined(np.array(sorted({int(q) % m.nelements for q in c['marks']}), dtype=np.int64))
+    elif post == 'uniform' and kind != 'wedge' and m.nelements <= 6 and 'curved' not in desc['feat']:
+        m = m.refined()
+    elif post == 'discarded_ops' and first_order:
+        _ = m.facets, m.t2f
+        if kind in ('tri', 'tet'):
+            m.oriented()
+        m.translated(tuple([1.0] * m.dim()))
+        if m.nelements > 1:
+            m.restrict(np.arange(m.nelements - 1))
+        m.with_boundaries({'b': m.boundary_facets()[:1]})
+    else:
+        post = 'none'
+    ctx.cls('post:' + post)
     inner = np.nonzero(m.f2t[1] != -1)[0]
     if len(inner) == 0:
         raise Reject()
@@ -155,7 +176,14 @@ def body(c, ctx):
     ctx.nt(any(a != b for a, b in slots) or 'mirrored' in desc['feat'] or any(f.startswith('renum') or f == 'local-order' for f in desc['feat']))
     rng = np.random.RandomState(c['seed'])
     vals = np.array([1.0, -1.0, 0.5, -2.0, 3.0, 0.25, 1.5])
-    rel = 1e-7 if glob else 1e-9
+    rel = 1e-9
+    if glob:
+        # ElementGlobal inverts, per cell, a Vandermonde matrix of monomials in the PHYSICAL coordinates whose rows mix values with
+        # first and second derivatives: its conditioning grows with the coordinate magnitude R and with 1/h, and the precision of the
+        # basis with it (observed 1.0e-7 at R = 512).  The yardstick follows; a real discontinuity is a relative jump of 1e-2 or more.
+        R = float(np.abs(m.p).max())
+        hmin = float(np.sqrt(((m.p[:, m.facets[0]] - m.p[:, m.facets[-1]]) ** 2).sum(0)).min()) if m.dim() > 1 else float(np.abs(np.diff(np.sort(m.p[0]))).min())
+        rel = 1e-7 * max(1.0, R, 1.0 / max(hmin, 1e-12))
     # ------------------------------------------------------------------ route 1: interior facet bases
     facet_ok = facet_supported(kind, eld)
     bkind = {'line': None, 'tri': 'line', 'quad': 'line', 'tet': 'tri', 'hex': 'quad'}[kind]
